@@ -186,7 +186,7 @@ fn q_h12free__mvex_pos1_payload4() {
 }
 #[kani::proof]
 #[kani::unwind(8)]
-fn q_h12free__mvex_pos2_payload1() {
+fn t_h12free__mvex_pos2_payload1() {
     h12_mvex(2, 1, false)
 }
 #[kani::proof]
